@@ -24,8 +24,12 @@ const BASE: u128 = 1_000_000;
 
 fn kidx(k: MarketConfigKey) -> u128 { u16::from(k) as u128 }
 
-fn build_market(closed: bool, mask: u64) -> Result<Box<Market>, String> {
+fn build_market(closed: bool, mask: u64) -> Result<Box<Market>, String> { build_market_p(false, closed, mask) }
+
+/// `pure`: a single-token market (`MarketFlag::Pure`): the long and the short settings are STILL separate keys
+fn build_market_p(pure: bool, closed: bool, mask: u64) -> Result<Box<Market>, String> {
     let mut m = Box::<Market>::default();
+    m.set_flag(MarketFlag::Pure, pure);
     for k in MarketConfigKey::iter() {
         match m.get_config_mut(&k.to_string()) { Ok(p) => *p = BASE + kidx(k), Err(_) => {} }
     }
@@ -182,6 +186,13 @@ fn exec_inner(t: &[&str]) -> Option<String> {
             }
             read_param(&m, method, variant, side, param)
         }
+        ["c16", "pparam", pure, closed, mask, wk, v, method, variant, side, param] => {
+            let v: u128 = v.parse().ok()?;
+            let side = match *side { "-" => None, "1" => Some(true), "0" => Some(false), _ => return None };
+            let mut m = build_market_p(*pure == "1", *closed == "1", mask.parse().ok()?).ok()?;
+            if *wk != "-" { match m.get_config_mut(wk) { Ok(p) => *p = v, Err(_) => return Some("nokey".into()) } }
+            read_param(&m, method, variant, side, param)
+        }
         ["c16", "flagrw", mask, wf, b, rf] => {
             let mask: u64 = mask.parse().ok()?;
             let mut m = build_market(false, mask).ok()?;
@@ -300,6 +311,10 @@ fn flag_value(flag: &str, mask: u64) -> Option<bool> {
 
 fn oracle(req: &str, resp: &str) -> Option<Result<(), String>> {
     let t: Vec<&str> = req.split(' ').collect();
+    if let ["c16", "pparam", pure, rest @ ..] = t.as_slice() {
+        // a pure (single-token) market keeps separate long / short settings: the expectation is the same
+        return oracle(&format!("c16 param {}", rest.join(" ")), resp).map(|r| r.map_err(|e| format!("[pure market = {pure}] {e}")));
+    }
     match t.as_slice() {
         ["c16", "rw", wk, v, rk] => {
             let (Ok(_), Ok(r)) = (wk.parse::<MarketConfigKey>(), rk.parse::<MarketConfigKey>()) else { return None };
@@ -386,6 +401,16 @@ fn main() {
             };
             for wk in own { for (closed, mask) in &states { for val in ["0", "1", "340282366920938463463374607431768211455"] {
                 v.push(format!("c16 param {closed} {mask} {wk} {val} {me} {var} {s} {p}"));
+            } } }
+        }
+        // PURE markets: every parameter (in particular every long/short selector) read with the asymmetric sentinels,
+        // and with boundary values written through its own keys
+        for (me, var, side, p) in &rows {
+            let s = match side { None => "-", Some(true) => "1", Some(false) => "0" };
+            for closed in 0..2 { for mask in [0u8, 4, 15] { v.push(format!("c16 pparam 1 {closed} {mask} - 0 {me} {var} {s} {p}")); } }
+            let own: Vec<&str> = match expectation(me, var, *side, p) { Some(K(k)) => vec![k], Some(C(c, o)) | Some(OC(c, o)) => vec![c, o], _ => vec![] };
+            for wk in own { for val in ["0", "7", "340282366920938463463374607431768211455"] { for (closed, mask) in [(0, 0), (1, 4)] {
+                v.push(format!("c16 pparam 1 {closed} {mask} {wk} {val} {me} {var} {s} {p}"));
             } } }
         }
         let extra = cli.n.max(200);
